@@ -157,12 +157,16 @@ def r1(case, rec):
     for i, (v, l, h) in enumerate(zip(xopt, lo, hi)):
         if case['fixed'] and case['fixed'][i] is not None:
             require(v == case['fixed'][i], '%s returned fixed parameter %d as %r, not %r' % (which, i, v, case['fixed'][i]), **sig)
-        else:
-            require(l * (1 - 1e-9) <= v <= h * (1 + 1e-9), '%s returned parameter %d = %r outside its bounds [%r, %r]' % (which, i, v, l, h), **sig)
+        elif not (l * (1 - 1e-9) <= v <= h * (1 + 1e-9)):
+            # a penalty-based wrapper that stops on an out-of-bounds trial point reports the penalty itself as the optimum
+            esc = dict(finding='penalty-escape') if (which in SCIPY and reported <= -1e7) else {}
+            raise Violation('%s returned parameter %d = %r outside its bounds [%r, %r] (reported optimum %r)' % (which, i, v, l, h, reported), **dict(sig, **esc))
     ll_at = likelihood(model, xopt, data, case['multinom'])
     require(abs(ll_at - reported) <= 1e-8 * (abs(reported) + 1), '%s reports optimum likelihood %r but the likelihood at the returned parameters %r is %r'
             % (which, reported, xopt.tolist(), ll_at), **sig)
-    if which.startswith('opt:'):
+    if which == 'opt:LN_BOBYQA':
+        # 'the primary optimiser' is opt() with its default algorithm; COBYLA and Nelder-Mead return their current iterate, not the
+        # best point seen, when a tiny evaluation budget runs out (NLopt's documented behaviour), so no monotonicity is asked of them
         ll_start = likelihood(model, start, data, case['multinom'])
         require(ll_at >= ll_start - 1e-8 * (abs(ll_start) + 1), 'opt returned a point with likelihood %r, worse than the starting point %r' % (ll_at, ll_start), **sig)
     require(list(case['lo']) == lo_before and list(case['hi']) == hi_before and list(case['start']) == p0_before, 'optimiser modified its list arguments')
